@@ -35,16 +35,27 @@ impl de::Error for SErr {
 pub struct Rec {
     log: Rc<RefCell<Vec<String>>>,
     fail_at: usize,
+    /// the injected fault is a panic instead of an error
+    panics: bool,
 }
 impl Rec {
     fn new(fail_at: usize) -> Rec {
-        Rec { log: Rc::new(RefCell::new(vec![])), fail_at }
+        Rec { log: Rc::new(RefCell::new(vec![])), fail_at, panics: false }
+    }
+    fn new_panicking(fail_at: usize) -> Rec {
+        Rec { log: Rc::new(RefCell::new(vec![])), fail_at, panics: true }
     }
     fn tick(&self, what: String) -> Result<(), SErr> {
-        let mut l = self.log.borrow_mut();
-        l.push(what);
-        if l.len() == self.fail_at {
-            Err(SErr(format!("injected failure at serializer call {}", l.len())))
+        let n = {
+            let mut l = self.log.borrow_mut();
+            l.push(what);
+            l.len()
+        };
+        if n == self.fail_at && self.panics {
+            suspend(|| panic!("injected panic in a serializer call"))
+        }
+        if n == self.fail_at {
+            Err(SErr(format!("injected failure at serializer call {}", n)))
         } else {
             Ok(())
         }
@@ -316,19 +327,27 @@ pub struct De {
     v: V,
     calls: Rc<RefCell<usize>>,
     fail_at: usize,
+    /// the injected fault is a panic instead of an error
+    panics: bool,
 }
 impl De {
     fn tick(&self) -> Result<(), SErr> {
-        let mut c = self.calls.borrow_mut();
-        *c += 1;
-        if *c == self.fail_at {
-            Err(SErr(format!("injected failure at deserializer callback {}", *c)))
+        let n = {
+            let mut c = self.calls.borrow_mut();
+            *c += 1;
+            *c
+        };
+        if n == self.fail_at && self.panics {
+            suspend(|| panic!("injected panic in a deserializer callback"))
+        }
+        if n == self.fail_at {
+            Err(SErr(format!("injected failure at deserializer callback {}", n)))
         } else {
             Ok(())
         }
     }
     fn child(&self, v: V) -> De {
-        De { v, calls: self.calls.clone(), fail_at: self.fail_at }
+        De { v, calls: self.calls.clone(), fail_at: self.fail_at, panics: self.panics }
     }
 }
 impl<'de> Deserializer<'de> for De {
@@ -459,12 +478,12 @@ fn ser_case<T: Serialize + Clone + fmt::Debug>(g: &mut Grid, tname: &str, v: &T)
 }
 
 fn de_case<T: for<'a> Deserialize<'a> + PartialEq + fmt::Debug>(g: &mut Grid, tname: &str, input: &V) {
-    let probe = De { v: input.clone(), calls: Default::default(), fail_at: 0 };
+    let probe = De { v: input.clone(), calls: Default::default(), fail_at: 0, panics: false };
     let _ = T::deserialize(probe.clone());
     let calls = *probe.calls.borrow();
     for k in 0..=calls + 1 {
         let case = format!("deserialize {} from {:?} failing at deserializer callback {}", tname, input, k);
-        let mk = || De { v: input.clone(), calls: Default::default(), fail_at: k };
+        let mk = || De { v: input.clone(), calls: Default::default(), fail_at: k, panics: false };
         vrt::begin_execution();
         let dv = suspend(mk);
         let rv: Result<T, SErr> = cap(|| T::deserialize(dv));
@@ -542,11 +561,11 @@ fn de_case<T: for<'a> Deserialize<'a> + PartialEq + fmt::Debug>(g: &mut Grid, tn
 /// success leaves a fresh sole owner of the new value and the sibling untouched; failure leaves the
 /// place exactly as it was; nothing leaks and nothing is destroyed twice.
 fn inplace_case<T: for<'a> Deserialize<'a> + PartialEq + fmt::Debug + Clone>(g: &mut Grid, tname: &str, input: &V, old: &T) {
-    let probe = De { v: input.clone(), calls: Default::default(), fail_at: 0 };
+    let probe = De { v: input.clone(), calls: Default::default(), fail_at: 0, panics: false };
     let _ = T::deserialize(probe.clone());
     let calls = *probe.calls.borrow();
     for k in 0..=calls + 1 {
-        let mk = || De { v: input.clone(), calls: Default::default(), fail_at: k };
+        let mk = || De { v: input.clone(), calls: Default::default(), fail_at: k, panics: false };
         let want: Result<T, SErr> = suspend(|| T::deserialize(mk()));
         for (kind, shared) in [("Arc<T>", false), ("Arc<T>", true), ("UniqueArc<T>", false)] {
             let case = format!("deserialize_in_place {} ({}) from {:?} failing at callback {}", kind, if shared { "place shared with a sibling" } else { "sole owner" }, input, k);
@@ -614,6 +633,121 @@ fn inplace_case<T: for<'a> Deserialize<'a> + PartialEq + fmt::Debug + Clone>(g: 
     }
 }
 
+/// The injected fault is a *panic* in the k-th serializer call: the handle's impl must panic exactly
+/// when the value's does, after the same calls, and leave the handle as it was.
+fn ser_panic_case<T: Serialize + Clone + fmt::Debug>(g: &mut Grid, tname: &str, v: &T) {
+    let base = Rec::new(0);
+    let _ = v.serialize(base.clone());
+    let calls = base.log.borrow().len();
+    let a = Arc::new(v.clone());
+    let a2 = a.clone();
+    let u = UniqueArc::new(v.clone());
+    for k in 1..=calls {
+        let case = format!("serialize {} {:?} panicking in serializer call {}", tname, v, k);
+        g.case(format!("ser-panic|{}|{}", tname, calls), || case.clone());
+        let want = Rec::new_panicking(k);
+        let rw = vrt::catch(|| v.serialize(want.clone())).is_err();
+        for kind in ["Arc<T>", "UniqueArc<T>"] {
+            let got = Rec::new_panicking(k);
+            let r = vrt::catch(|| if kind == "Arc<T>" { a.serialize(got.clone()) } else { u.serialize(got.clone()) }).is_err();
+            if r != rw || *got.log.borrow() != *want.log.borrow() {
+                g.fail(&format!("serialize-panic:{}", kind), &case, format!("through {}: panicked={} after calls {:?}; the value: panicked={} after {:?}", kind, r, got.log.borrow(), rw, want.log.borrow()));
+            }
+        }
+        if Arc::count(&a) != 2 || !Arc::ptr_eq(&a, &a2) {
+            g.fail("serialize-panic-count", &case, format!("count {} after the panic (2 handles)", Arc::count(&a)));
+        }
+    }
+}
+
+/// The injected fault is a *panic* in the k-th deserializer callback: it propagates (exactly when
+/// the value's own deserializer panics), nothing stays allocated, and a place handed to
+/// deserialize_in_place is left as it was.
+fn de_panic_case<T: for<'a> Deserialize<'a> + PartialEq + fmt::Debug + Clone>(g: &mut Grid, tname: &str, input: &V, old: &T) {
+    let probe = De { v: input.clone(), calls: Default::default(), fail_at: 0, panics: false };
+    let _ = T::deserialize(probe.clone());
+    let calls = *probe.calls.borrow();
+    for k in 1..=calls {
+        let mk = || De { v: input.clone(), calls: Default::default(), fail_at: k, panics: true };
+        let want_panic = suspend(|| vrt::catch(|| T::deserialize(mk()).is_ok()).is_err());
+        for kind in ["Arc<T>", "UniqueArc<T>", "in_place Arc<T>", "in_place shared Arc<T>", "in_place UniqueArc<T>"] {
+            let case = format!("deserialize {} {} from {:?} panicking in deserializer callback {}", kind, tname, input, k);
+            vrt::begin_execution();
+            g.case(format!("de-panic|{}|{}|{}", tname, kind, want_panic), || case.clone());
+            let d = suspend(mk);
+            match kind {
+                "Arc<T>" | "UniqueArc<T>" => {
+                    let r = vrt::catch(|| cap(|| if kind == "Arc<T>" { drop(Arc::<T>::deserialize(d)) } else { drop(UniqueArc::<T>::deserialize(d)) }));
+                    if r.is_err() != want_panic {
+                        g.fail(&format!("deserialize-panic-verdict:{}", kind), &case, format!("panicked={}, the value's own deserializer: {}", r.is_err(), want_panic));
+                    }
+                }
+                "in_place UniqueArc<T>" => {
+                    let mut place = cap(|| UniqueArc::new(old.clone()));
+                    let r = vrt::catch(|| cap(|| Deserialize::deserialize_in_place(d, &mut place).is_ok()));
+                    if r.is_err() != want_panic {
+                        g.fail("deserialize-panic-verdict:in_place UniqueArc<T>", &case, format!("panicked={}, the value's own deserializer: {}", r.is_err(), want_panic));
+                    }
+                    if r.is_err() && *place != *old {
+                        g.fail("deserialize-panic-place-changed:UniqueArc<T>", &case, format!("after the panic the place reads {:?}, it held {:?}", *place, old));
+                    }
+                    cap(|| drop(place));
+                }
+                _ => {
+                    let shared = kind == "in_place shared Arc<T>";
+                    let mut place = cap(|| Arc::new(old.clone()));
+                    let sibling = if shared { Some(cap(|| place.clone())) } else { None };
+                    let blk = place.heap_ptr() as usize;
+                    let r = vrt::catch(|| cap(|| Deserialize::deserialize_in_place(d, &mut place).is_ok()));
+                    if r.is_err() != want_panic {
+                        g.fail("deserialize-panic-verdict:in_place Arc<T>", &case, format!("panicked={}, the value's own deserializer: {}", r.is_err(), want_panic));
+                    }
+                    if r.is_err() && (*place != *old || place.heap_ptr() as usize != blk || Arc::count(&place) != 1 + shared as usize) {
+                        g.fail("deserialize-panic-place-changed:Arc<T>", &case, format!("after the panic the place reads {:?} (count {}), it held {:?}", *place, Arc::count(&place), old));
+                    }
+                    if let Some(s) = &sibling {
+                        if **s != *old {
+                            g.fail("deserialize-panic-sibling:Arc<T>", &case, format!("the sibling now reads {:?}", **s));
+                        }
+                    }
+                    cap(|| drop((place, sibling)));
+                }
+            }
+            if !arena::live_blocks().is_empty() || arena::n_errors() != 0 {
+                g.fail(&format!("deserialize-panic-leak:{}", kind), &case, format!("after the unwind (and dropping the place): live {:?} allocator errors {:?}", arena::live_blocks(), arena::errors_since(0)));
+            }
+        }
+    }
+}
+
+pub fn panic_grid() -> Grid {
+    let mut g = Grid::new("c17.panic", "serializer / deserializer callbacks that PANIC at each k-th call (k = 1..calls), through Arc<T>, UniqueArc<T> and deserialize_in_place on sole, shared and unique places: the panic propagates exactly when the value's own impl panics, after the same calls; counts unchanged, the place as it was, nothing left allocated");
+    let pts = [Pt { x: 1, y: "p".into(), z: vec![] }, Pt { x: 2, y: String::new(), z: vec![5, 6] }];
+    ser_panic_case(&mut g, "u8", &7u8);
+    ser_panic_case(&mut g, "String", &"héllo".to_string());
+    ser_panic_case(&mut g, "(u8,String)", &(9u8, "xy".to_string()));
+    ser_panic_case(&mut g, "Vec<u16>", &vec![1u16, 2, 3]);
+    for p in &pts {
+        ser_panic_case(&mut g, "Pt(struct)", p);
+    }
+    for e in [En::A, En::B(4), En::C { p: pts[1].clone() }, En::D(1, "d".into())] {
+        ser_panic_case(&mut g, "En(enum)", &e);
+    }
+    ser_panic_case(&mut g, "Huge(8 KiB)", &Huge { tag: 3, pad: [3; 8192] });
+    let s = |x: &str| V::S(x.to_string());
+    let inputs: Vec<V> = vec![V::U(7), s("text"), V::Seq(vec![V::U(1), V::U(2), V::U(3)]), V::Seq(vec![V::U(9), s("xy")]), V::Seq(vec![V::U(1), s("p"), V::Seq(vec![V::U(5)])]), V::Map(vec![(s("x"), V::U(1)), (s("y"), s("q")), (s("z"), V::Seq(vec![]))]), V::Variant("B".into(), Some(Box::new(V::U(4))))];
+    let old_pt = Pt { x: 200, y: "old value kept on the heap".into(), z: vec![1, 2, 3] };
+    for inp in &inputs {
+        de_panic_case::<u8>(&mut g, "u8", inp, &77);
+        de_panic_case::<String>(&mut g, "String", inp, &"old string on the heap".to_string());
+        de_panic_case::<Vec<u16>>(&mut g, "Vec<u16>", inp, &vec![9, 9, 9, 9]);
+        de_panic_case::<(u8, String)>(&mut g, "(u8,String)", inp, &(5, "old".to_string()));
+        de_panic_case::<Pt>(&mut g, "Pt(struct)", inp, &old_pt);
+        de_panic_case::<Huge>(&mut g, "Huge(8 KiB)", inp, &Huge { tag: 9, pad: [9; 8192] });
+    }
+    g
+}
+
 pub fn run(_tier: &str) -> Vec<Grid> {
     let mut g = Grid::new("c17.serialize", "value family (u8, i64, String, (u8,String), Vec<u16> of length 0..3, Option, hand-written struct / enum / newtype+map) x failure injected at each k-th serializer call (k = 0..calls+1); the call log and the result through Arc<T>/UniqueArc<T> must equal those of the value");
     for v in [0u8, 7, 255] {
@@ -674,5 +808,5 @@ pub fn run(_tier: &str) -> Vec<Grid> {
         inplace_case::<(u8, String)>(&mut ip, "(u8,String)", inp, &(5, "old".to_string()));
         inplace_case::<Huge>(&mut ip, "Huge(8 KiB)", inp, &Huge { tag: 9, pad: [9; 8192] });
     }
-    vec![g, d, ip]
+    vec![g, d, ip, panic_grid()]
 }
